@@ -252,6 +252,7 @@ func (s *c12CubbyRun) readAll(phase string) {
 					continue
 				}
 				s.r.Count("cross_token_reads", 1)
+				s.r.Eval(1) // one judged request / matrix cell
 				s.r.Nontrivial(fmt.Sprintf("read|%s|%s>%s|%d>%d|%s|%v", phase, c12Role(cell.Tok), c12Role(reader), cell.Tok.NS.Depth, n.Depth, q.Form, cell.Tok.Dead))
 				if !q.ok() || q.resp == nil || len(q.resp.Data) == 0 {
 					s.r.Count("cross_token_reads_empty", 1)
